@@ -53,10 +53,8 @@ def fdae_solver(fdae: nFDAE,
     tspan = np.array(tspan)
     T_initial = tspan[0]
     tend = tspan[-1]
-    if (tend / dt) > 10000:
-        nstep = np.ceil(tend / dt).astype(int) + 1000
-    else:
-        nstep = int(10000)
+    # one row per step of the span (not of tend alone: t0 need not be 0), with some slack
+    nstep = max(int(np.ceil((tend - T_initial) / dt)) + 1000, 10000)
     nt = 0
     tt = T_initial
     t0 = tt
@@ -73,10 +71,12 @@ def fdae_solver(fdae: nFDAE,
     p = fdae.p
     while not done:
 
-        if tt + dt >= tend:
+        # The last step ends at tend itself. The test tolerates the rounding accumulated in tt, so that
+        # an integral number of steps is not followed by a spurious extra one.
+        last_step = False
+        if tt + dt * (1 + 1e-9) >= tend:
             dt = tend - tt
-        else:
-            dt = np.minimum(dt, 0.5 * (tend - tt))
+            last_step = True
 
         if done:
             break
@@ -96,7 +96,7 @@ def fdae_solver(fdae: nFDAE,
             print(f"FDAE solver broke at time={tt} due to non-convergence")
             break
 
-        tt = tt + dt
+        tt = tend if last_step else tt + dt
         nt = nt + 1
         u[nt] = u1
         T[nt] = tt
@@ -105,7 +105,7 @@ def fdae_solver(fdae: nFDAE,
         t0 = tt
         u0 = u1
 
-        if np.abs(tend - tt) < uround:
+        if last_step or np.abs(tend - tt) < uround:
             done = True
 
     u = u[0:nt + 1]
